@@ -236,53 +236,70 @@ fn prop_history(ops: &Vec<Op>, rec: &mut CaseRec) -> Result<(), Violation> {
 // --- the check-then-wait window ------------------------------------------------------------------
 
 fn wait_window(run: &Run, bound: usize) {
+  for n_senders in [1usize, 2, 3] {
+    wait_window_n(run, bound, n_senders);
+  }
+}
+
+/// `n_senders` tasks block in route_message(wait_for_peer = true) on an orchestrator without
+/// peers while another task adds the first peer: every one of them has to get its message out.
+fn wait_window_n(run: &Run, bound: usize, n_senders: usize) {
   let sub = "wait_for_first_peer_schedules";
   let exec = |schedule: &[sched::Decision]| -> (sched::RunResult, bool) {
     let orch = Arc::new(Orchestrator::new());
     let conn = ScriptedConn::new("late", 10);
-    let delivered = Arc::new(std::sync::atomic::AtomicBool::new(false));
-    let o1 = orch.clone();
-    let d1 = delivered.clone();
-    let sender: Box<dyn FnOnce(TaskCtx) -> Result<(), Aborted> + Send> = Box::new(move |ctx: TaskCtx| {
-      let r = ctx.block_on(o1.route_message(msg(1), true))?;
-      if r.is_ok() {
-        d1.store(true, std::sync::atomic::Ordering::SeqCst);
-      }
-      Ok(())
-    });
+    let delivered = Arc::new(std::sync::atomic::AtomicUsize::new(0));
+    let mut tasks: Vec<Box<dyn FnOnce(TaskCtx) -> Result<(), Aborted> + Send>> = Vec::new();
+    for k in 0..n_senders {
+      let o1 = orch.clone();
+      let d1 = delivered.clone();
+      tasks.push(Box::new(move |ctx: TaskCtx| {
+        let r = ctx.block_on(o1.route_message(msg(k as u32 + 1), true))?;
+        if r.is_ok() {
+          d1.fetch_add(1, std::sync::atomic::Ordering::SeqCst);
+        }
+        Ok(())
+      }));
+    }
     let o2 = orch.clone();
     let c2 = conn.clone();
-    let adder: Box<dyn FnOnce(TaskCtx) -> Result<(), Aborted> + Send> = Box::new(move |ctx: TaskCtx| {
+    tasks.push(Box::new(move |ctx: TaskCtx| {
       ctx.point("adder:before_add")?;
       o2.add_connection("uri-late", c2);
       ctx.point("adder:after_add")?;
       Ok(())
-    });
-    let (res, _) = sched::run(vec![sender, adder], schedule, 500, || Ok(()));
-    let ok = delivered.load(std::sync::atomic::Ordering::SeqCst) && conn.taken().len() == 1;
+    }));
+    let (res, _) = sched::run(tasks, schedule, 800, || Ok(()));
+    let ok = delivered.load(std::sync::atomic::Ordering::SeqCst) == n_senders && conn.taken().len() == n_senders;
     (res, ok)
   };
   if run.is_replay() {
     if let Some(case) = run.replay_case(sub) {
+      if case["senders"].as_u64().unwrap_or(1) as usize != n_senders {
+        return;
+      }
       let schedule: Vec<sched::Decision> = serde_json::from_value(case["schedule"].clone()).unwrap_or_default();
       let (res, ok) = exec(&schedule);
       if res.deadlock || !ok {
-        run.report(sub, Violation::new("waiter_not_woken", format!("replay: deadlock={} delivered={}", res.deadlock, ok)).with("layer", "load_balancer"), case);
+        run.report(sub, Violation::new("waiter_not_woken", format!("replay: deadlock={} all delivered={}", res.deadlock, ok)).with("layer", "load_balancer"), case);
       }
     }
     return;
   }
   let mut stop = false;
-  let (runs, complete) = sched::explore(bound, 20_000, |schedule| {
+  // more tasks, more schedules: one decision less for three senders keeps the enumeration finite in seconds
+  let bound_n = if n_senders >= 3 { bound.saturating_sub(1).max(2) } else { bound };
+  let (runs, complete) = sched::explore(bound_n, 20_000, |schedule| {
     let (res, ok) = exec(schedule);
     let mut rec = CaseRec::default();
     rec.nontrivial = res.steps.iter().any(|s| s.label == "wait_for_connection:checked_empty");
     rec.label_if(rec.nontrivial, "sender_reached_wait");
-    let case = json!({"schedule": schedule});
-    run.record_case(sub, || case.clone(), &rec, hash_of(&schedule.to_vec()));
+    rec.label_if(n_senders > 1, "several_senders_waiting");
+    let case = json!({"schedule": schedule, "senders": n_senders});
+    run.record_case(sub, || case.clone(), &rec, hash_of(&(schedule.to_vec(), n_senders)));
     if res.deadlock || (!ok && !res.hit_step_limit) {
       let trace: Vec<String> = res.steps.iter().map(|s| format!("t{}@{}", s.ran, s.label)).collect();
-      let v = Violation::new("waiter_not_woken", format!("a send waiting for its first peer is still blocked after the peer was added (deadlock={}): {}", res.deadlock, trace.join(" ")))
+      let v = Violation::new("waiter_not_woken", format!("{} sends waited for the first peer; after it was added not all of them got through (deadlock={}): {}", n_senders, res.deadlock, trace.join(" ")))
         .with("layer", "load_balancer");
       if !run.report(sub, v, case) {
         stop = true;
@@ -291,7 +308,7 @@ fn wait_window(run: &Run, bound: usize) {
     }
     Ok(res.steps)
   });
-  run.add_subspace(&format!("sender waiting for a first peer vs. add_connection: every schedule with at most {} decisions", bound), runs, complete && !stop);
+  run.add_subspace(&format!("{} sender(s) waiting for a first peer vs. add_connection: every schedule with at most {} decisions", n_senders, bound_n), runs, complete && !stop);
 }
 
 // --- L2: one stalled PULL among several ------------------------------------------------------------------
